@@ -20,6 +20,7 @@ type DetQueue struct {
 	Adds       int
 	Gets       int
 	MaxRequeue int
+	OnAdd      func(item interface{}) // observer of every Add (before de-duplication)
 	// Epoch shift: callers compute delays as time.Until(virtualDeadline) against the wall clock.
 }
 
@@ -34,6 +35,13 @@ func NewDetQueue(name string, now func() time.Time) *DetQueue {
 }
 
 func (q *DetQueue) Add(item interface{}) {
+	if q.OnAdd != nil {
+		q.OnAdd(item)
+	}
+	q.add(item)
+}
+
+func (q *DetQueue) add(item interface{}) {
 	q.Adds++
 	if q.dirty[item] {
 		return
@@ -155,7 +163,7 @@ func (q *DetQueue) FireDue() int {
 	rest := q.delayed[:0]
 	for _, d := range q.delayed {
 		if !d.at.After(now) {
-			q.Add(d.item)
+			q.add(d.item)
 			n++
 		} else {
 			rest = append(rest, d)
